@@ -2349,6 +2349,11 @@ struct Exec {
         seed = plan.at("seed").as_hex();
         for (auto& m : plan.at("models").a) models.push_back(model::lib_from(m));
         // reach probes: rare model features the generators aim for
+        for (auto& m : models) {
+            if (m.cells.size() >= 130) count("model_libraries_with_130_cells_or_more");
+            for (auto& c : m.cells)
+                if (c.name.size() >= 126) count("model_cell_names_126_bytes_or_more");
+        }
         for (auto& m : models)
             for (auto& c : m.cells) {
                 for (auto& q : c.paths) {
